@@ -533,6 +533,73 @@ func c09BufLen(v ssa.Value) (ssa.Value, ssa.Instruction) {
 	return nil, nil
 }
 
+// c09BufCanon: a buffer pointer kept in a write-once cell (a local captured by a deferred literal is
+// spilled to memory by go/ssa) stands for the value stored there: every load of the cell is the same buffer.
+func c09BufCanon(v ssa.Value) ssa.Value {
+	for i := 0; i < 4; i++ {
+		u, ok := v.(*ssa.UnOp)
+		if !ok || u.Op != token.MUL {
+			return v
+		}
+		al, ok := u.X.(*ssa.Alloc)
+		if !ok || al.Referrers() == nil {
+			return v
+		}
+		var stored ssa.Value
+		n := 0
+		for _, ref := range *al.Referrers() {
+			switch x := ref.(type) {
+			case *ssa.Store:
+				if x.Addr == ssa.Value(al) {
+					stored, n = x.Val, n+1
+				} else {
+					return v // the cell's address is stored somewhere
+				}
+			case *ssa.UnOp, *ssa.DebugRef, *ssa.MakeClosure:
+			default:
+				return v
+			}
+		}
+		if n != 1 {
+			return v
+		}
+		v = stored
+	}
+	return v
+}
+
+// c09BufAliases: the SSA values that denote the same buffer as v (v itself, or the value stored in
+// its write-once cell and every load of that cell).
+func c09BufAliases(v ssa.Value) []ssa.Value {
+	c := c09BufCanon(v)
+	out := []ssa.Value{c}
+	if c.Referrers() != nil {
+		for _, ref := range *c.Referrers() {
+			if st, ok := ref.(*ssa.Store); ok && st.Val == c {
+				if al, ok := st.Addr.(*ssa.Alloc); ok && al.Referrers() != nil {
+					for _, r2 := range *al.Referrers() {
+						if u, ok := r2.(*ssa.UnOp); ok && u.Op == token.MUL && c09BufCanon(u) == c {
+							out = append(out, u)
+						}
+					}
+				}
+			}
+		}
+	}
+	if v != c {
+		seen := false
+		for _, o := range out {
+			if o == v {
+				seen = true
+			}
+		}
+		if !seen {
+			out = append(out, v)
+		}
+	}
+	return out
+}
+
 // c09ElementsOccupyBytes decides the encoder's clause for every call that encodes an element
 // of v; returns the number of such calls.
 func c09ElementsOccupyBytes(r *Run, mf *c09fn, agg *c09Agg) int {
@@ -585,12 +652,15 @@ func c09ElementsOccupyBytes(r *Run, mf *c09fn, agg *c09Agg) int {
 			fail("undecided: the call that encodes v.Index(i) does not stand in a loop over the elements")
 			continue
 		}
-		buf := c.Call.Args[0]
+		buf := c09BufCanon(c.Call.Args[0])
 		// the other uses of the body's buffer inside the loop
 		var uses []ssa.Instruction
 		escapes := ""
-		if buf.Referrers() != nil {
-			for _, ref := range *buf.Referrers() {
+		for _, alias := range c09BufAliases(buf) {
+			if alias.Referrers() == nil {
+				continue
+			}
+			for _, ref := range *alias.Referrers() {
 				if _, isDbg := ref.(*ssa.DebugRef); isDbg || ref == ssa.Instruction(c) || ref.Block() == nil || !blocks[ref.Block()] {
 					continue
 				}
@@ -601,7 +671,7 @@ func c09ElementsOccupyBytes(r *Run, mf *c09fn, agg *c09Agg) int {
 				}
 				name := CalleeOf(call)
 				if !(glob("(*bytes.Buffer).Write*", name) || name == "(*bytes.Buffer).Len" || name == "(*bytes.Buffer).Bytes" || name == "(*bytes.Buffer).Grow" ||
-					call.Call.StaticCallee() == fn && call.Call.Args[0] == buf) {
+					call.Call.StaticCallee() == fn && c09BufCanon(call.Call.Args[0]) == buf) {
 					escapes = name
 				}
 				uses = append(uses, call)
@@ -627,7 +697,7 @@ func c09ElementsOccupyBytes(r *Run, mf *c09fn, agg *c09Agg) int {
 				return isConstInt(x, 0)
 			}
 			b, at := c09BufLen(x)
-			if b != buf || at == nil || !blocks[at.Block()] || !c09Precedes(at, c) {
+			if b == nil || c09BufCanon(b) != buf || at == nil || !blocks[at.Block()] || !c09Precedes(at, c) {
 				return false
 			}
 			for _, u := range uses {
@@ -645,7 +715,7 @@ func c09ElementsOccupyBytes(r *Run, mf *c09fn, agg *c09Agg) int {
 		}
 		after := func(x ssa.Value) bool {
 			b, at := c09BufLen(x)
-			return b == buf && at != nil && c09Precedes(c, at)
+			return b != nil && c09BufCanon(b) == buf && at != nil && c09Precedes(c, at)
 		}
 		// the edges on which "after > before" (or "after ≠ before") is known
 		var grown []*ssa.BasicBlock
